@@ -37,7 +37,9 @@ var scalarDt = map[string]datatype.DataType{
 func scalarT(name string) *ctype { return &ctype{kind: "scalar", scalar: name, dt: scalarDt[name]} }
 func listT(e *ctype) *ctype      { return &ctype{kind: "list", elem: e, dt: datatype.NewList(e.dt)} }
 func setT(e *ctype) *ctype       { return &ctype{kind: "set", elem: e, dt: datatype.NewSet(e.dt)} }
-func mapT(k, v *ctype) *ctype    { return &ctype{kind: "map", key: k, val: v, dt: datatype.NewMap(k.dt, v.dt)} }
+func mapT(k, v *ctype) *ctype {
+	return &ctype{kind: "map", key: k, val: v, dt: datatype.NewMap(k.dt, v.dt)}
+}
 func tupleT(fs ...*ctype) *ctype {
 	dts := make([]datatype.DataType, len(fs))
 	for i, f := range fs {
@@ -121,9 +123,9 @@ type aval struct {
 
 var aNull = &aval{kind: "null"}
 
-func aInt(z *big.Int) *aval   { return &aval{kind: "int", z: new(big.Int).Set(z)} }
-func aInt64(x int64) *aval    { return &aval{kind: "int", z: big.NewInt(x)} }
-func aBytes(b []byte) *aval   { return &aval{kind: "bytes", bs: append([]byte{}, b...)} }
+func aInt(z *big.Int) *aval      { return &aval{kind: "int", z: new(big.Int).Set(z)} }
+func aInt64(x int64) *aval       { return &aval{kind: "int", z: big.NewInt(x)} }
+func aBytes(b []byte) *aval      { return &aval{kind: "bytes", bs: append([]byte{}, b...)} }
 func aFloat32(bits uint64) *aval { return &aval{kind: "float", z: new(big.Int).SetUint64(bits), w: 32} }
 func aFloat64(bits uint64) *aval { return &aval{kind: "float", z: new(big.Int).SetUint64(bits), w: 64} }
 
